@@ -91,12 +91,13 @@ MatchFrom(d, S, p, k) ==
   IF k > Len(p) \/ S = {} THEN S
   ELSE MatchFrom(d, UNION {IF p[k].i = -3 THEN {d[i].kids[x] : x \in 1..Len(d[i].kids)} ELSE ChildrenAt(d, i, p[k]) : i \in S}, p, k + 1)
 MatchIds(d, p) == SortIds(MatchFrom(d, {Root}, p, 1))        \* Processor.get_nodes order = document order
-\* a key or wildcard step over a list (yamlpath searches the records of the list) is not modelled: no verdict then
+\* only a step that suits every node it meets is modelled: a key over hashes (or sets), a position over lists, the
+\* wildcard over hashes.  (yamlpath searches the records of a list for a key, and gives the whole path up when one
+\* branch of a wildcard raises: no verdict for such paths)
 RECURSIVE MatchSureFrom(_, _, _, _)
 MatchSureFrom(d, S, p, k) ==
   IF k > Len(p) \/ S = {} THEN TRUE
-  ELSE /\ \A i \in S : d[i].k = "seq" => p[k].i >= 0
-       /\ \A i \in S : (d[i].k = "set" \/ d[i].k = "s") => p[k].i # -3
+  ELSE /\ \A i \in S : IF p[k].i >= 0 THEN d[i].k = "seq" ELSE IF p[k].i = -3 THEN d[i].k = "map" ELSE d[i].k \in {"map", "set"}
        /\ MatchSureFrom(d, UNION {IF p[k].i = -3 THEN {d[i].kids[x] : x \in 1..Len(d[i].kids)} ELSE ChildrenAt(d, i, p[k]) : i \in S}, p, k + 1)
 MatchSure(d, p) == MatchSureFrom(d, {Root}, p, 1)
 \* the nodes a configuration section registers: [id, v] in the order of the section, then of the matches
@@ -427,8 +428,11 @@ Between(c, acc, p, i, j, z) ==
   ELSE IF a.k = "set" THEN Sets(c, acc, p, i, j)
   ELSE Emit1(acc, Ent(IF ScalarEq(a, b) THEN "SAME" ELSE "CHANGE", p, i, j))
 
-Diff(l, r, cfg) == Between([l |-> l, r |-> r, cfg |-> cfg, rr |-> Registered(r, cfg.rules), kr |-> Registered(r, cfg.keys)],
-                            [es |-> <<>>, crash |-> FALSE, dom |-> TRUE], <<>>, Root, Root, FALSE)
+Diff(l, r, cfg) ==
+  IF \E k \in 1..Len(cfg.rules) : ~MatchSure(r, cfg.rules[k].p) THEN [es |-> <<>>, crash |-> TRUE, dom |-> FALSE]      \* what the path
+  ELSE IF \E k \in 1..Len(cfg.keys) : ~MatchSure(r, cfg.keys[k].p) THEN [es |-> <<>>, crash |-> TRUE, dom |-> FALSE]  \* registers is not modelled
+  ELSE Between([l |-> l, r |-> r, cfg |-> cfg, rr |-> Registered(r, cfg.rules), kr |-> Registered(r, cfg.keys)],
+               [es |-> <<>>, crash |-> FALSE, dom |-> TRUE], <<>>, Root, Root, FALSE)
 
 GlobalCfg(arrays, aoh, fixed) == [arrays |-> arrays, aoh |-> aoh, rules |-> <<>>, keys |-> <<>>, fixed |-> fixed]
 MirroredDiff(l, r, arrays, aoh) == Diff(l, r, GlobalCfg(arrays, aoh, {}))              \* the code as pinned
